@@ -57,6 +57,7 @@ def scan_forbidden() -> list[str]:
 
 
 # properties whose theorems rest on the wire constants / formats extracted into ConstTie.lean
+LAST_TIE: dict[str, str] = {}   # translator status of the last build: function -> 'translated' | 'UNTRANSLATED: reason'
 CONST_TIE = {"SomeipModel.ConstTie": {"C01", "C02", "C03", "C09", "C16", "C18", "C20"}}
 
 
@@ -107,6 +108,8 @@ def lean_build(log: list[str], pid: str | None = None) -> tuple[bool, list[str]]
             from harness import pytolean
 
             text, status = pytolean.generate()
+            LAST_TIE.clear()
+            LAST_TIE.update(status)
             gpath = os.path.join(LEAN, "SomeipModel", "GenTie.lean")
             if not os.path.exists(gpath) or open(gpath).read() != text:
                 with open(gpath, "w") as f:
@@ -429,6 +432,8 @@ def check(pid: str, tier: str, seed: int, module, level_text: str) -> int:
                                                     "; leanchecker re-check of %d modules: %s" % (len(built_mods), "passed" if rechecked else "FAILED")),
                 "axioms used: " + ", ".join(sorted({a for v in axioms.values() if v for a in v})) if any(axioms.values()) else "axioms used: none",
                 "hand-written model tied to /repo/src by this run's correspondence cases (differential test) and the constant tie",
+                "translator harness/pytolean.py (decision functions regenerated from /repo/src this run: %s)" % (
+                    ", ".join(f"{k}: {v}" for k, v in sorted(LAST_TIE.items())) or "not run"),
                 "harness/driver glue (unverified parsing/printing)",
                 "CPython struct/int/slicing semantics as modelled",
             ],
